@@ -8,8 +8,10 @@
    keeper.go ActExternalRewardsLockers / ActExternalRewardsVaults (122-223); abci.go BeginBlocker.
    Definitions only.  Times are whole seconds.  The farmed values (lpSupplies), the child-pool
    contributions, the amount TransferFundsForSwapFeeDistribution hands over, and the locker / vault
-   populations enter as recorded environment values.  DistributeExtRewardLend (230-314) with AddLendExternalRewards.  Not modelled: stable-mint external
-   programs. *)
+   populations and the kill switch of the programs' apps enter as recorded environment values.
+   DistributeExtRewardLend (230-314) with AddLendExternalRewards.  abci.go as repaired by b2d3331
+   (each distribution in its own ApplyFuncIfNoError); gauge.go / iter.go as repaired by
+   fixes/C19-F2 and fixes/C19-F3.  Not modelled: stable-mint external programs. *)
 From Comdex Require Import Lib.Base Lib.DecArith Lib.F64.
 
 (* ---------------- SplitTotalAmountPerEpoch (uint64 arguments) ---------------- *)
